@@ -14,35 +14,53 @@ for every input the set of dropped-clause variants it distinguishes; the evidenc
 which the family's clause is decisive / the sole decider.  Python never computes an expected bond: it aims inputs
 at thresholds using the radius table EXPORTED BY TLC from the spec, and filters out inputs on a threshold.
 
+Extension (see DESIGN 9.2): (1) REAL STRUCTURES - harness/c10_real.py drives read_system of bin/martinize2 and the real
+MakeBonds on the structures of the test-suite with every option; spec/BondsRead.tla specifies the reading front end
+(molecules by TER / ENDMDL / END, MODEL selection, alternate locations, exclusions, CONECT bonds and merges), Bonds.tla has
+an arrangement of the SAME criteria for thousands of atoms (FastOutC; the TAB model and every small trace check it against
+the declarative form).  (2) HISTORY - a second MakeBonds run on the result, runs after atoms were removed, input molecules
+that touch, coinciding residue identities in different input molecules, at both scales.  (3) TAB model widened: every
+ordered pair of elements of the radius table just inside / just outside the threshold for fudge factors below and above 1,
+pairs exactly ON the threshold (the statement's "within" puts them inside: OnThresholdInside; replayed as an observation),
+a middle atom the block does not know.  The atoms of every resulting molecule must be listed in input order.
+Workers generate, run AND judge their share and return summaries; the parent never holds the events of a tier.
+
 Float -> integer: coordinates are integer pm (multiples of 10) handed to vermouth as nm floats; a recorded
 'distance' d (nm) is turned into round((1000 d)^2) pm^2 and must be within 1e-6 relative of that integer (else -1,
 which the judge rejects)."""
+import hashlib
+import json
 import logging
 import math
 import multiprocessing as mp
 import random
+import re
+import shutil
 
 from . import common, tlc
 
 PID = 'C10'
 INVARIANTS = ('Partition ResiduesWhole MolConnected MolMaximal InputMolsNeverFused OldKept NameExact '
-              'GuessedObeyCriteria NothingWithoutMode OpIsDecl DistOnlyOnNew').split()
+              'GuessedObeyCriteria NothingWithoutMode OpIsDecl DistOnlyOnNew FastIsDecl OnThresholdInside TableBounded').split()
 TAB_CFG = 'SPECIFICATION Spec\n' + ''.join('INVARIANT %s\n' % i for i in INVARIANTS)
 TBL_CFG = 'INIT TblInit\nNEXT Next\n'
 TRACE_CFG = 'SPECIFICATION Spec\n'
 EMPTY = {'Els': '{}', 'XPairs': '{}', 'Fudges': '{}', 'NameTriples': '{}', 'ResnameTriples': '{}', 'MolTriples': '{}',
          'ResidTriples': '{}', 'OldChoices': '{}', 'Modes': '{}', 'SweepEls': '{}', 'SweepFudges': '{}'}
+ALL_ELS = '{"H","D","He","C","N","O","F","Ne","Si","P","S","Cl","Ar","As","Se","Br","Kr","Te","I","Xe","X"}'
 TAB_CONSTS = {
     'quick': {
         'Els': '{"H","C","X"}',
-        'XPairs': '{<<100,200>>, <<150,300>>, <<130,400>>}',
+        'XPairs': '{<<100,200>>, <<130,400>>}',
         'ResidTriples': '{<<1,1,1>>,<<1,1,2>>,<<1,2,1>>}',
         'MolTriples': '{<<0,0,0>>,<<0,0,1>>}',
         'ResnameTriples': '{<<"R","R","R">>,<<"U","U","U">>}',
-        'NameTriples': '{<<"A","B","C">>,<<"A","C","B">>,<<"A","B","A">>}',
+        'NameTriples': '{<<"A","B","C">>,<<"A","C","B">>,<<"A","B","A">>,<<"A","Z","C">>}',
         'OldChoices': '{<<>>, << <<1,2>> >>}',
         'Modes': '{<<TRUE,TRUE>>,<<TRUE,FALSE>>,<<FALSE,TRUE>>,<<FALSE,FALSE>>}',
         'Fudges': '{<<6,5>>}',
+        'SweepEls': ALL_ELS,
+        'SweepFudges': '{<<1,1>>,<<9,10>>,<<6,5>>}',
     },
     'thorough': {
         'Els': '{"H","C","X"}',
@@ -50,10 +68,12 @@ TAB_CONSTS = {
         'ResidTriples': '{<<1,1,1>>,<<1,1,2>>,<<1,2,1>>,<<1,2,3>>}',
         'MolTriples': '{<<0,0,0>>,<<0,0,1>>,<<0,1,0>>,<<0,1,2>>}',
         'ResnameTriples': '{<<"R","R","R">>,<<"U","U","U">>,<<"R","R","U">>}',
-        'NameTriples': '{<<"A","B","C">>,<<"A","C","B">>,<<"A","B","A">>,<<"C","-","Z">>}',
+        'NameTriples': '{<<"A","B","C">>,<<"A","C","B">>,<<"A","B","A">>,<<"C","-","Z">>,<<"A","Z","C">>}',
         'OldChoices': '{<<>>, << <<1,2>> >>, << <<3,2>>, <<1,2>> >>}',
         'Modes': '{<<TRUE,TRUE>>,<<TRUE,FALSE>>,<<FALSE,TRUE>>,<<FALSE,FALSE>>}',
         'Fudges': '{<<6,5>>,<<9,10>>}',
+        'SweepEls': ALL_ELS + ' \\cup {"Xx", "SE", "CL"}',
+        'SweepFudges': '{<<1,1>>,<<9,10>>,<<6,5>>,<<4,5>>,<<1,2>>,<<3,2>>,<<13,10>>,<<19,20>>,<<5,4>>}',
     },
 }
 # variants that only say "the result has several molecules / a single-atom molecule": sensitive on almost every input,
@@ -86,13 +106,12 @@ def conv_d2(dist):
     return int(n)
 
 
-def run_real(s, rng, ordered=None):
-    """Build real vermouth objects for the abstract system s, run MakeBonds.run_system, project the result."""
+def build_system(s, rng, ordered=None):
+    """Real vermouth objects for the abstract system s -> (System, atoms in the order MakeBonds will receive them)."""
     import numpy as np
     from vermouth.forcefield import ForceField
     from vermouth.molecule import Molecule, Block
     from vermouth.system import System
-    from vermouth.processors import MakeBonds
     ff = ForceField(name='verif_c10')
     for b in s['blocks']:
         blk = Block(force_field=ff)
@@ -112,6 +131,7 @@ def run_real(s, rng, ordered=None):
     if not ordered:
         rng.shuffle(molids)
     key_of = {}
+    inorder = []
     for mi in molids:
         members = [i for i, a in enumerate(s['atoms'], 1) if a['mol'] == mi]
         if ordered:
@@ -145,24 +165,59 @@ def run_real(s, rng, ordered=None):
             attrs['position'] = np.array(pos) if rng.random() < 0.8 else pos
             mol.add_node(key, **attrs)
             key_of[i] = (mi, key)
+            inorder.append(i)
         for i, j in s['old']:
             if s['atoms'][i - 1]['mol'] == mi:
                 mol.add_edge(key_of[i][1], key_of[j][1], verif_old=True)
         system.add_molecule(mol)
+    return system, inorder
+
+
+def apply_makebonds(system, s, inorder, rng):
+    """the real MakeBonds.run_system on `system`; the result projected: molecules in NODE ORDER, bonds"""
+    from vermouth.processors import MakeBonds
     fudge = s['fn'] / s['fd'] if (s['fd'] != 1 or rng.random() < 0.5) else s['fn']
-    got = {'err': False, 'mols': [], 'edges': []}
+    got = {'err': False, 'mols': [], 'edges': [], 'inorder': list(inorder)}
     try:
         MakeBonds(allow_name=s['name'], allow_dist=s['dist'], fudge=fudge).run_system(system)
         for m in system.molecules:
             tag = {n: d.get('tag', 0) for n, d in m.nodes(data=True)}
-            got['mols'].append(sorted(tag.values()))
+            got['mols'].append(list(tag.values()))
             for u, v, d in m.edges(data=True):
                 got['edges'].append({'a': tag[u], 'b': tag[v], 'hasd': 'distance' in d,
                                      'd2': conv_d2(d['distance']) if 'distance' in d else 0,
                                      'old': d.get('verif_old') is True})
     except Exception as exc:   # the real code must not fail on a well-specified input
-        got = {'err': True, 'mols': [], 'edges': [], 'exc': repr(exc)[:300]}
+        got = {'err': True, 'mols': [], 'edges': [], 'inorder': list(inorder), 'exc': repr(exc)[:300]}
     return got
+
+
+def run_real(s, rng, ordered=None, keep=False):
+    """Build real vermouth objects for the abstract system s, run MakeBonds.run_system, project the result."""
+    system, inorder = build_system(s, rng, ordered)
+    got = apply_makebonds(system, s, inorder, rng)
+    return (got, system) if keep else got
+
+
+def project_live(system, prev, name, dist, fu):
+    """HISTORY: the abstract form of a live system (result of an earlier run, possibly edited): atoms re-tagged 1..n in the
+    order MakeBonds will receive them, every bond present is an input bond of the next run."""
+    atoms, old = [], []
+    i = 0
+    for mi, mol in enumerate(system.molecules):
+        for key, d in mol.nodes(data=True):
+            i += 1
+            d['tag'] = i
+            pos = d['position']
+            atoms.append({'mol': mi, 'chain': d.get('chain', '-'), 'resid': d.get('resid', -1), 'icode': d.get('insertion_code', '-'),
+                          'resname': d.get('resname', '-'), 'name': d.get('atomname', '-'), 'el': d.get('element', '-'),
+                          'x': int(round(float(pos[0]) * 1000)), 'y': int(round(float(pos[1]) * 1000)),
+                          'z': int(round(float(pos[2]) * 1000))})
+        for u, v, ed in mol.edges(data=True):
+            ed['verif_old'] = True
+            ed.pop('distance', None)
+            old.append([mol.nodes[u]['tag'], mol.nodes[v]['tag']])
+    return {'atoms': atoms, 'old': old, 'blocks': prev['blocks'], 'name': bool(name), 'dist': bool(dist), 'fn': fu[0], 'fd': fu[1]}
 
 
 def tla_sys(st_sys):
@@ -177,16 +232,57 @@ def _norm(a, b):
     return (a, b) if a < b else (b, a)
 
 
+def iter_dump(path, k, n):
+    """stream the states of a TLC dump file whose ordinal is k modulo n (the parent never parses the dump)"""
+    from . import tlaval
+    hdr = tlaval._STATE_HDR
+    num, body = None, []
+    with open(path) as fh:
+        for line in fh:
+            m = hdr.match(line)
+            if m:
+                if num is not None and num % n == k:
+                    yield ''.join(body)
+                num, body = int(m.group(1)), [line[m.end():]]
+            elif num is not None:
+                body.append(line)
+    if num is not None and num % n == k:
+        yield ''.join(body)
+
+
 def _replay_chunk(args):
-    states, seed = args
+    """TAB states -> real MakeBonds.run_system; the worker reads its share of the dump itself and returns a summary"""
+    from . import tlaval
+    path, k, n, seed = args
     _quiet()
     rng = random.Random(seed)
-    bad, n = [], 0
-    for st in states:
+    out = {'n': 0, 'bad': [], 'tab_sens': {}, 'nontrivial': set(), 'sample': None, 'seen': 0, 'pending': 0,
+           'near': {'states': 0, 'bonds_expected': 0, 'bonds_made': 0, 'agree': 0}}
+    for body in iter_dump(path, k, n):
+        out['seen'] += 1
+        if 'sens = {"pending"}' in body:
+            out['pending'] += 1
+            continue
+        st = tlaval.parse_state_body(body)
         s = tla_sys(st['sys'])
-        got = run_real(s, rng)
-        n += 1
         exp = st['out']
+        for x in st['sens']:
+            out['tab_sens'][x] = out['tab_sens'].get(x, 0) + 1
+        got = run_real(s, rng)
+        if exp['near']:
+            # a pair exactly ON the threshold: the statement says bonded (the model checks that); what the floating-point
+            # code does is an observation, not a verdict
+            ne = len(exp['edges'])
+            ng = len({_norm(e['a'], e['b']) for e in got['edges']})
+            o = out['near']
+            o['states'] += 1
+            o['bonds_expected'] += ne
+            o['bonds_made'] += ng
+            o['agree'] += ne == ng
+            continue
+        if set(st['sens']) - SHAPE:
+            out['nontrivial'].add(hashlib.sha1(json.dumps(common.jsonable(st['sys']), sort_keys=True).encode()).hexdigest()[:16])
+        out['n'] += 1
         why = None
         if got['err']:
             why = 'exception ' + got.get('exc', '')
@@ -205,9 +301,13 @@ def _replay_chunk(args):
                 why = 'molecules differ: real %s, TLC %s' % (sorted(map(sorted, gm)), sorted(map(sorted, exp['mols'])))
             elif not {_norm(i, j) for i, j in s['old']} <= go:
                 why = 'input bond lost its attributes'
-        if why:
-            bad.append(({'kind': 'tab', 'sys': s, 'expected': common.jsonable(exp), 'got': got}, why))
-    return n, bad
+        if why and len(out['bad']) < 5:
+            out['bad'].append(({'kind': 'tab', 'sys': s, 'expected': common.jsonable(exp), 'got': got}, why))
+        elif why:
+            out['bad'].append((None, why))
+        if out['sample'] is None and len(exp['dist']) >= 1 and len(exp['mols']) >= 2:
+            out['sample'] = common.jsonable(st)
+    return out
 
 
 # ---------------------------------------------------------------------------------------------- generators
@@ -649,6 +749,44 @@ class Gen:
             b = sc.add(e2, plus(p, vec(rng, t * 0.5, t * 1.5)), resname=rn, name='Q2')
         return self.finish(rng, sc, 'fudge-lt-1', None, name, True, fu, (a, b))
 
+    def f_twoletter(self, rng):
+        """two-letter element symbols of the radius table (Se, Cl, Si, Br, ...) and their upper-case spelling in PDB
+        files (SE, CL: no radius, never bond), around their own threshold"""
+        two = [e for e in self.known if len(e) == 2]
+        e1 = rng.choice(two)
+        if rng.random() < 0.3:
+            e1 = e1.upper()
+        lo, hi = rng.choice([(0.9, 0.9995), (1.0005, 1.1)])
+        c = self._pair(rng, lo, hi, 'two-letter', None, els=(e1, rng.choice(self.known + two)))
+        return c
+
+    def f_touch(self, rng):
+        """two input molecules (TER-separated chains) whose residues coincide in chain / number / name; a heavy atom of
+        one lies within bonding distance of the other (the molecules merge, the residues stay two) or does not"""
+        sc = Scene()
+        fu = rng.choice(FUDGES)
+        name, rn = self.neutral(rng, sc)
+        p = origin(rng)
+        e1, e2 = rng.choice(HEAVY), rng.choice(HEAVY)
+        t = self.thr(e1, e2, fu)
+        a = sc.add(e1, p, resname=rn, name='Q1', mol=0)
+        sc.add('H', plus(p, vec(rng, 80, 105)), resname=rn, name='Q2', mol=0)
+        close = rng.random() < 0.6
+        q = plus(p, vec(rng, t * 0.6, t * 0.97) if close else vec(rng, t * 1.05, t * 1.6))
+        b = sc.add(e2, q, resname=rn, name='Q1', mol=1)
+        sc.add('H', plus(q, vec(rng, 80, 105)), resname=rn, name='Q2', mol=1)
+        return self.finish(rng, sc, 'touch', 'no-mol', name, True, fu, (a, b), comp=['hacross', 'allone', 'lose-isolated'] + FAR,
+                           scope='mols')
+
+    def f_history(self, rng):
+        """a random system; the worker runs MakeBonds on it, optionally removes atoms from the RESULT, and runs MakeBonds
+        again on that (second event, family history-2nd)"""
+        out = self.f_random(rng)
+        out['family'] = 'history'
+        out['history'] = {'remove': rng.choice([0, 0, 1, 2, 3]), 'name': rng.random() < 0.7, 'dist': rng.random() < 0.8,
+                          'fu': list(rng.choice(FUDGES + FUDGES_LT1[:2]))}
+        return out
+
     def f_modes_off(self, rng):
         out = self.f_random(rng)
         out['sys']['name'] = False
@@ -670,7 +808,7 @@ class Gen:
             for _ in range(rng.randint(1, 3)):
                 residues.append({'mol': mol, 'chain': rng.choice(['A', 'A', 'B']), 'resid': rng.choice([1, 1, 2, 3]),
                                  'icode': rng.choice(['', '', '', 'A']), 'resname': rng.choice(['KNA', 'KNA', 'KNB', 'UNK'])})
-        elpool = ['C', 'C', 'C', 'N', 'O', 'O', 'H', 'H', 'H', 'S', 'P', 'Se', 'X', '-']
+        elpool = ['C', 'C', 'C', 'N', 'O', 'O', 'H', 'H', 'H', 'S', 'P', 'Se', 'X', '-', 'Cl', 'Si', 'Br', 'F', 'D']
         pts = []
         for k in range(n):
             r = rng.choice(residues)
@@ -696,14 +834,27 @@ FAMILIES = ['radii', 'within_out', 'within_in', 'selenium', 'nonedge', 'hh', 'ha
             'partition', 'whole', 'connected', 'molidx', 'reskey_chain', 'reskey_resid', 'reskey_icode', 'reskey_resname',
             'oldkept', 'name_exact', 'name_off',
             'fallback_unknown', 'fallback_dup', 'fallback_nodist', 'fallback_not_first', 'elem_gaps', 'fudge_lt1',
-            'modes_off', 'random']
+            'twoletter', 'touch', 'history', 'modes_off', 'random']
 
 
-def _trace_chunk(args):
-    fams, seed, R = args
-    _quiet()
-    rng = random.Random(seed)
-    gen = Gen(R)
+def _judge(shard, timeout=3000):
+    """one TLC process judges a list of small events; -> (distinct, generated, wall, {tid: (verdict, info)})"""
+    work = tlc.scratch('c10_')
+    try:
+        ev = [{'sys': c['sys'], 'got': {k: c['got'][k] for k in ('err', 'mols', 'edges', 'inorder')}, 'focus': c['focus']}
+              for c in shard]
+        tf = tlc.write_json(work, 'trace.json', ev)
+        res = tlc.run('Trace_Bonds', TRACE_CFG, dump=True, env={'TRACE_FILE': tf}, workdir=work, workers=1, timeout=timeout)
+        if res.violated:
+            raise tlc.MachineryError('Trace_Bonds violated %s' % res.violated)
+        verdicts = {st['tid']: (st['verdict'], st['info']) for st in res.states() if st['verdict'] != 'pending'}
+        return res.distinct, res.generated, res.wall, verdicts
+    finally:
+        shutil.rmtree(work, ignore_errors=True)      # pool workers do not run the atexit clean-up
+
+
+def make_cases(fams, rng, gen):
+    """generate, run the real code (with its history), -> cases with recordings"""
     out = []
     for fam in fams:
         for _ in range(200):
@@ -712,77 +863,95 @@ def _trace_chunk(args):
                 break
         else:
             raise tlc.MachineryError('family %s cannot avoid threshold pairs' % fam)
-        case['got'] = run_real(case['sys'], rng, ordered=case.pop('ordered'))
+        hist = case.pop('history', None)
+        case['got'], system = run_real(case['sys'], rng, ordered=case.pop('ordered'), keep=True)
         out.append(case)
+        if hist and not case['got']['err']:
+            for _ in range(hist['remove']):
+                mols = [m for m in system.molecules if len(m) > 1]
+                if mols:
+                    m = rng.choice(mols)
+                    m.remove_node(rng.choice(list(m.nodes)))
+            s2 = project_live(system, case['sys'], hist['name'], hist['dist'], hist['fu'])
+            if s2['atoms'] and gen.near_free(s2):
+                got2 = apply_makebonds(system, s2, list(range(1, len(s2['atoms']) + 1)), rng)
+                out.append({'sys': s2, 'focus': {'a': 0, 'b': 0}, 'family': 'history-2nd', 'target': None, 'comp': [], 'scope': 'edges',
+                            'got': got2, 'removed': hist['remove'], 'nbonds_in': len(s2['old'])})
     return out
 
 
-def _judge(shard):
-    work = tlc.scratch('c10_')
-    ev = [{'sys': c['sys'], 'got': {k: c['got'][k] for k in ('err', 'mols', 'edges')}, 'focus': c['focus']} for c in shard]
-    tf = tlc.write_json(work, 'trace.json', ev)
-    res = tlc.run('Trace_Bonds', TRACE_CFG, dump=True, env={'TRACE_FILE': tf}, workdir=work, workers=2, timeout=3000)
-    if res.violated:
-        raise tlc.MachineryError('Trace_Bonds violated %s' % res.violated)
-    verdicts = {st['tid']: (st['verdict'], st['info']) for st in res.states() if st['verdict'] != 'pending'}
-    return res.distinct, res.generated, res.wall, verdicts
+def _trace_chunk(args):
+    """generate + run + JUDGE a share of the trace plan; returns a summary (rejected cases in full, nothing else)"""
+    fams, seed, R = args
+    _quiet()
+    rng = random.Random(seed)
+    batch = make_cases(fams, rng, Gen(R))
+    dist, gen_, wall, verdicts = _judge(batch)
+    out = {'states': dist, 'transitions': gen_, 'wall': wall, 'n': len(batch), 'stats': {}, 'sole_pairs': {}, 'sens_count': {},
+           'skipped': 0, 'traces': 0, 'nontrivial': set(), 'rejected': [], 'sample': None,
+           'history': {'second_runs': 0, 'with_removed_atoms': 0, 'added_bonds': 0, 'input_bonds': 0}}
+    for i, c in enumerate(batch, 1):
+        if i not in verdicts:
+            raise tlc.MachineryError('no verdict for trace %d of a shard' % i)
+        v, info = verdicts[i]
+        fam = c['family']
+        st = out['stats'].setdefault(fam, {'cases': 0, 'decisive': 0, 'sole': 0, 'target': c['target'], 'focus_failing': {},
+                                           'scope': set(), 'companions': set()})
+        st['scope'].add(c['scope'])
+        if v == 'unspecified-near-threshold':
+            out['skipped'] += 1
+            continue
+        if v in ('malformed-input', 'operational-differs-from-declarative', 'fast-differs-from-declarative'):
+            raise tlc.MachineryError('%s on generated case %s' % (v, common.jsonable(c['sys'])))
+        out['traces'] += 1
+        st['cases'] += 1
+        sens = set(info['sens'])
+        for x in sens:
+            out['sens_count'][x] = out['sens_count'].get(x, 0) + 1
+        for k, n in dict(info['sole']).items():
+            out['sole_pairs'][k] = out['sole_pairs'].get(k, 0) + n
+        out['sole_pairs']['(none fails: distance bond)'] = out['sole_pairs'].get('(none fails: distance bond)', 0) + info['nbond']
+        if c['focus']['a']:
+            key = '+'.join(sorted(info['failing'])) or '(none)'
+            st['focus_failing'][key] = st['focus_failing'].get(key, 0) + 1
+        if c['target']:
+            scoped = sens if c['scope'] == 'mols' else set(info['sensE'])
+            if c['target'] in scoped:
+                st['decisive'] += 1
+                st['companions'] |= set(c['comp'])
+                if scoped <= {c['target']} | set(c['comp']):
+                    st['sole'] += 1
+        if fam == 'history-2nd':
+            h = out['history']
+            h['second_runs'] += 1
+            h['with_removed_atoms'] += c['removed'] > 0
+            h['added_bonds'] += info['nbond']
+            h['input_bonds'] += c['nbonds_in']
+        if len(sens - SHAPE) >= 1:
+            out['nontrivial'].add(hashlib.sha1(json.dumps(common.jsonable(c['sys']), sort_keys=True).encode()).hexdigest()[:16])
+        if v != 'ok':
+            out['rejected'].append(({'kind': 'trace', 'sys': c['sys'], 'got': c['got'], 'focus': c['focus'], 'family': fam,
+                                     'verdict': v}, v))
+        elif out['sample'] is None and fam == 'nonedge':
+            out['sample'] = {'kind': 'recorded run judged by TLC', 'family': fam, 'sys': c['sys'], 'got': c['got']}
+    return out
 
 
-def judge_batch(batch, ev, vd, nshards):
-    shards = common.chunks(batch, nshards)
-    with mp.Pool(min(len(shards), tlc.NCPU // 2)) as pool:
-        res = pool.map(_judge, shards)
-    stats = {}
-    sole_pairs = {}
-    sens_count = {}
-    skipped = 0
-    wall = 0.0
-    for shard, (dist, gen_, w, verdicts) in zip(shards, res):
-        ev.states += dist
-        ev.transitions += gen_
-        wall = max(wall, w)
-        for i, c in enumerate(shard, 1):
-            if i not in verdicts:
-                raise tlc.MachineryError('no verdict for trace %d of a shard' % i)
-            v, info = verdicts[i]
-            fam = c['family']
-            st = stats.setdefault(fam, {'cases': 0, 'decisive': 0, 'sole': 0, 'target': c['target'], 'focus_failing': {},
-                                        'scope': set(), 'companions': set()})
-            st['scope'].add(c['scope'])
-            if v == 'unspecified-near-threshold':
-                skipped += 1
-                continue
-            if v in ('malformed-input', 'operational-differs-from-declarative'):
-                raise tlc.MachineryError('%s on generated case %s' % (v, common.jsonable(c['sys'])))
-            ev.traces += 1
-            ev.evaluations += 1
-            st['cases'] += 1
-            sens = set(info['sens'])
-            for x in sens:
-                sens_count[x] = sens_count.get(x, 0) + 1
-            for k, n in dict(info['sole']).items():
-                sole_pairs[k] = sole_pairs.get(k, 0) + n
-            sole_pairs['(none fails: distance bond)'] = sole_pairs.get('(none fails: distance bond)', 0) + info['nbond']
-            if c['focus']['a']:
-                key = '+'.join(sorted(info['failing'])) or '(none)'
-                st['focus_failing'][key] = st['focus_failing'].get(key, 0) + 1
-            if c['target']:
-                scoped = sens if c['scope'] == 'mols' else set(info['sensE'])
-                if c['target'] in scoped:
-                    st['decisive'] += 1
-                    st['companions'] |= set(c['comp'])
-                    if scoped <= {c['target']} | set(c['comp']):
-                        st['sole'] += 1
-            if len(sens - SHAPE) >= 1:
-                ev.nontrivial_case(c['sys'])
-            if v != 'ok':
-                vd.violation('trace-rejected', {'kind': 'trace', 'sys': c['sys'], 'got': c['got'], 'focus': c['focus'],
-                                                'family': fam, 'verdict': v}, '%s (family %s)' % (v, fam))
-    ev.tlc_runs.append({'run': 'TRACE Trace_Bonds', 'events': len(batch), 'shards': len(shards), 'wall_s': round(wall, 1)})
-    for st in stats.values():
-        st['companions'] = sorted(st['companions'])
-        st['scope'] = '/'.join(sorted(st['scope']))
-    return stats, sole_pairs, sens_count, skipped
+def _merge_stats(total, part):
+    for fam, st in part.items():
+        t = total.setdefault(fam, {'cases': 0, 'decisive': 0, 'sole': 0, 'target': st['target'], 'focus_failing': {},
+                                   'scope': set(), 'companions': set()})
+        for k in ('cases', 'decisive', 'sole'):
+            t[k] += st[k]
+        t['scope'] |= st['scope']
+        t['companions'] |= st['companions']
+        for k, n in st['focus_failing'].items():
+            t['focus_failing'][k] = t['focus_failing'].get(k, 0) + n
+
+
+def _add(total, part):
+    for k, n in part.items():
+        total[k] = total.get(k, 0) + n
 
 
 def spec_table():
@@ -797,63 +966,201 @@ def spec_table():
 
 
 # ---------------------------------------------------------------------------------------------- driver
+def _viol(vd, ev, kind, sc, why):
+    """report a violation and count it by kind / clause for the evidence"""
+    clause = re.sub(r'<<.*?>>|[0-9]+|\[.*', '#', why)[:70]
+    by = ev.extra.setdefault('violations_by_kind', {})
+    by[kind + ': ' + clause] = by.get(kind + ': ' + clause, 0) + 1
+    return vd.violation(kind, sc, why)
+
+
+REAL_NEED = {   # what the real-structure family must have exercised (summed over its runs); else the run is vacuous
+    'runs': 8, 'nname': 100, 'nguess': 100, 'nold': 10, 'nfallback': 2, 'twins': 2, 'sole.hh': 1, 'sole.hacross': 1,
+    'sole.nonedge': 1, 'sole.radii': 1, 'sole.bonded': 100, 'merged_by_bond': 1, 'split_input_molecule': 1,
+    'read.ncross': 1, 'read.nlinks': 10, 'read.nalt': 1, 'read.skipped_atoms': 10, 'read.multi_model': 1, 'second_runs': 1,
+    'runs_after_removal': 1, 'gro_runs': 1, 'name_only': 1, 'dist_only': 1, 'none_mode': 1, 'fudge_below_1': 1}
+
+
+def _real_summary(parts, ev, vd):
+    """merge the summaries of the real-structure workers; violations; vacuity"""
+    tot = {k: 0 for k in REAL_NEED}
+    runs = []
+    unsupported = []
+    for part in parts:
+        ev.states += part['states']
+        ev.transitions += part['transitions']
+        unsupported += part['unsupported']
+        if part['sample']:
+            ev.sample(part['sample'])
+        for r in part['runs']:
+            v, info, case = r['verdict'], r['info'], r['case']
+            if v == 'malformed-input':
+                raise tlc.MachineryError('real-structure run is malformed for the spec: %s' % (case,))
+            line = {'src': case['src'], 'ops': case['ops'], 'fmt': case.get('fmt', 'pdb'), 'ff': case['ff'],
+                    'mode': ('name' if case['name'] else '') + ('+' if case['name'] and case['dist'] else '') + ('dist' if case['dist'] else '') or 'none',
+                    'fudge': '%d/%d' % tuple(case['fudge']), 'history': case.get('history', ['run']), 'step': r['step'], 'verdict': v}
+            if v == 'unspecified-near-threshold':
+                tot.setdefault('skipped_on_threshold', 0)
+                tot['skipped_on_threshold'] += 1
+                runs.append(line)
+                continue
+            ev.traces += 1
+            ev.evaluations += 1
+            line.update({k: info.get(k) for k in ('natoms', 'nres', 'nnamed', 'nfallback', 'nold', 'nname', 'nguess', 'ninmol', 'nmol', 'twins')})
+            line['blocked_only_by'] = {k: n for k, n in dict(info['sole']).items() if n and k != 'within'}
+            rd = info.get('read', {})
+            if rd.get('nrecs'):
+                line['read'] = {k: rd[k] for k in ('natomrecs', 'nkept', 'nsegs', 'nlinks', 'ncross', 'nmols', 'nalt', 'nmodels')}
+                tot['read.ncross'] += rd['ncross']
+                tot['read.nlinks'] += rd['nlinks']
+                tot['read.nalt'] += rd['nalt']
+                tot['read.skipped_atoms'] += rd['natomrecs'] - rd['nkept']
+                tot['read.multi_model'] += rd['nmodels'] > 1
+            runs.append(line)
+            tot['runs'] += 1
+            for k in ('nname', 'nguess', 'nold', 'nfallback', 'twins'):
+                tot[k] += info[k]
+            for k in ('hh', 'hacross', 'nonedge', 'radii', 'bonded'):
+                tot['sole.' + k] += dict(info['sole'])[k]
+            tot['merged_by_bond'] += info['nmol'] < info['ninmol']
+            tot['split_input_molecule'] += info['nmol'] > info['ninmol']
+            tot['second_runs'] += r['step'] > 0
+            tot['runs_after_removal'] += any(h.startswith('remove') for h in case.get('history', []))
+            tot['gro_runs'] += case.get('fmt') == 'gro'
+            tot['name_only'] += case['name'] and not case['dist'] and r['step'] == 0
+            tot['dist_only'] += case['dist'] and not case['name'] and r['step'] == 0
+            tot['none_mode'] += not case['dist'] and not case['name']
+            tot['fudge_below_1'] += case['fudge'][0] < case['fudge'][1]
+            if info['nguess'] + info['nname'] > 0:
+                ev.nontrivial_case([case, r['step']])
+            if v != 'ok':
+                _viol(vd, ev, 'real-structure-rejected', {'kind': 'real', 'case': case, 'step': r['step'], 'verdict': v,
+                                                         'got_summary': r.get('got_summary'), 'exception': r['exc']},
+                             '%s (%s %s, run %d of the history)' % (v, case['src'], case['ops'], r['step']))
+    missing = {k: (tot[k], need) for k, need in REAL_NEED.items() if tot[k] < need}
+    if missing:
+        raise tlc.MachineryError('real-structure family is vacuous (have, need): %s' % missing)
+    if tot.get('skipped_on_threshold', 0) > 0.1 * max(1, len(runs)):
+        raise tlc.MachineryError('%d real-structure runs were on a threshold' % tot['skipped_on_threshold'])
+    return tot, runs, unsupported
+
+
 def run(tier, seed, ev, vd):
+    from . import c10_real
     quick = tier == 'quick'
     ev.rule = ('TAB: every 3-atom system on a line in the bounded domain (elements x positions x residue numbers x input '
-               'molecules x residue names x atom names x old bonds x 4 modes x fudge). TRACE: generator families, one per '
+               'molecules x residue names x atom names x old bonds x 4 modes x fudge) and every ordered pair of elements of '
+               'the radius table just inside / outside the threshold. TRACE: generator families, one per '
                'conjunct of the distance rule and per clause of the partition. Non-trivial = TLC finds at least one '
                'dropped-clause variant (other than "all atoms one molecule" / "single atoms dropped") whose result '
                'differs from the property\'s on that input; distinct by input. Per family the evidence gives: cases, '
                'decisive = the family\'s clause (variant `target`) is distinguished by the input (scope edges: bonds / '
                'distance attributes differ; scope mols: the result differs), sole = nothing but the target and its listed '
                'companions (variants logically entailed by the construction) is distinguished, focus_failing = set of failing '
-               'conjuncts of the aimed pair as computed by TLC.')
+               'conjuncts of the aimed pair as computed by TLC. REAL: one run of the reading front end + MakeBonds per listed '
+               'structure / operation / option vector; non-trivial = at least one name-based or guessed bond expected; the '
+               'family must have exercised every item of real_structures.exercised (minimum counts in REAL_NEED).')
     ev.assumptions = [
         'TLC evaluates the TLA+ operators correctly',
         'coordinates on a 10 pm lattice; pairs whose squared distance is within 1e-6 (relative) of the squared threshold '
-        'are never generated (TLC re-checks and skips them)',
-        'elements without a radius are taken from {X, Xx, Q, "", absent}; metals, for which Bondi lists radii that '
-        'vermouth does not document, and lower-case element symbols are not generated',
+        'are never judged (TLC re-checks and skips them); real structures are snapped to that lattice and an atom of such a '
+        'pair is moved one lattice step',
+        'elements without a radius are taken from {X, Xx, Q, "", absent, ZN, Fe, SE, CL}: the element string is compared as it '
+        'is, so the upper-case two-letter spelling of PDB files has no radius in the spec either; lower-case symbols and '
+        'metals for which Bondi lists radii that vermouth does not document are not generated',
         'recorded distance attributes are converted to integer pm^2 with relative tolerance 1e-6',
         'reference blocks have unique atom names and at least one atom',
-        'atoms always have a position']
+        'atoms always have a position',
+        'reader (BondsRead): serial numbers of the atoms read are unique; alternate locations are not combined with excluded '
+        'residues or hydrogens; the order of the molecules the reader returns and the interleaving of merged molecules are not judged',
+        'the fall-back warning count (one per residue, documented by make_bonds) is judged for real structures only',
+        'a second run is judged against the statement for ITS input (the input molecules are then the molecules of the first '
+        'result); whether it adds bonds is reported, not required']
     R, variants = spec_table()
-    # ---- TAB
-    res = tlc.run('Bonds', TAB_CFG, consts=TAB_CONSTS[tier], dump=True, coverage=False, timeout=3000)
-    if res.violated:
-        raise tlc.MachineryError('Bonds model violates %s: %s' % (res.violated, res.error_trace[-1:] if res.error_trace else ''))
-    ev.add_tlc('TAB Bonds (3 atoms on a line)', res)
-    states = [st for st in res.states() if 'pending' not in st['sens']]
-    if 2 * len(states) != res.distinct or not states:
-        raise tlc.MachineryError('dump has %d evaluated states, TLC reports %d states' % (len(states), res.distinct))
-    ev.exhaustive = True
-    tab_sens = {}
-    for st in states:
-        for x in st['sens']:
-            tab_sens[x] = tab_sens.get(x, 0) + 1
-        if set(st['sens']) - SHAPE:
-            ev.nontrivial_case(st['sys'])
-    with mp.Pool(tlc.NCPU) as pool:
-        results = pool.map(_replay_chunk, [(p, seed * 1009 + i) for i, p in enumerate(common.chunks(states, tlc.NCPU * 4))])
-    for n, bad in results:
-        ev.traces += n
-        ev.evaluations += n
-        for sc, why in bad:
-            vd.violation('replay-mismatch', sc, why)
-    ev.sample({'kind': 'TAB state replayed into MakeBonds.run_system',
-               'state': next((s for s in states if len(s['out']['dist']) >= 1 and len(s['out']['mols']) >= 2), states[0])})
-    # ---- TRACE
-    per = 22 if quick else 700
-    nrandom = 260 if quick else 6000
-    plan = [f for f in FAMILIES if f != 'random' for _ in range(per)] + ['random'] * nrandom
-    random.Random(seed).shuffle(plan)
-    nchunks = tlc.NCPU * (1 if quick else 4)
-    with mp.Pool(tlc.NCPU) as pool:
-        parts = pool.map(_trace_chunk, [(c, seed * 7907 + i, R) for i, c in enumerate(common.chunks(plan, nchunks))])
-    batch = [c for p in parts for c in p]
-    stats, sole_pairs, sens_count, skipped = judge_batch(batch, ev, vd, 8 if quick else 32)
-    if skipped > 0.02 * len(batch):
-        raise tlc.MachineryError('%d of %d generated cases were on a threshold' % (skipped, len(batch)))
+    # the pool is created while the parent is still small; workers generate, run and judge their own share
+    pool = mp.Pool(tlc.NCPU)
+    try:
+        cases = c10_real.plan(tier, seed)
+        # big structures first, one case per task (a task = real runs + one TLC process)
+        weight = {'1mj5': 50, '2qwo': 40, '6lfo': 20, 'lysozyme': 12}
+        cases.sort(key=lambda c: -weight.get(c['src'], 1) * len(c.get('history', [1])))
+        per_task = 1 if quick else 2
+        real_tasks = [cases[i:i + per_task] for i in range(0, len(cases), per_task)]
+        real_async = [pool.apply_async(c10_real.worker, ((chunk, R),)) for chunk in real_tasks]
+        per = 14 if quick else 600
+        nrandom = 180 if quick else 5000
+        plan = [f for f in FAMILIES if f != 'random' for _ in range(per)] + ['random'] * nrandom
+        random.Random(seed).shuffle(plan)
+        nchunks = tlc.NCPU * (1 if quick else 12)
+        trace_async = [pool.apply_async(_trace_chunk, ((c, seed * 7907 + i, R),)) for i, c in enumerate(common.chunks(plan, nchunks))]
+        # ---- TAB (TLC in the parent while the workers are busy)
+        res = tlc.run('Bonds', TAB_CFG, consts=TAB_CONSTS[tier], dump=True, coverage=False, timeout=3000, workers=8)
+        if res.violated:
+            raise tlc.MachineryError('Bonds model violates %s: %s' % (res.violated, res.error_trace[-1:] if res.error_trace else ''))
+        ev.add_tlc('TAB Bonds (3 atoms on a line; element-pair sweep)', res)
+        nrep = tlc.NCPU * (2 if quick else 8)
+        tab_async = [pool.apply_async(_replay_chunk, ((res.dump_path, k, nrep, seed * 1009 + k),)) for k in range(nrep)]
+        # ---- collect
+        tab_sens, near = {}, {'states': 0, 'bonds_expected': 0, 'bonds_made': 0, 'agree': 0}
+        seen = pending = replayed = 0
+        for a in tab_async:
+            part = a.get()
+            seen += part['seen']
+            pending += part['pending']
+            replayed += part['n']
+            ev.traces += part['n']
+            ev.evaluations += part['n']
+            _add(tab_sens, part['tab_sens'])
+            _add(near, part['near'])
+            ev.nontrivial |= part['nontrivial']
+            for sc, why in part['bad']:
+                if sc is not None:
+                    _viol(vd, ev, 'replay-mismatch', sc, why)
+                else:
+                    ev.violations += 1
+                    by = ev.extra.setdefault('violations_by_kind', {})
+                    by['replay-mismatch: (more)'] = by.get('replay-mismatch: (more)', 0) + 1
+            if part['sample']:
+                ev.sample({'kind': 'TAB state replayed into MakeBonds.run_system', 'state': part['sample']})
+        if seen != res.distinct or 2 * pending != res.distinct or replayed + near['states'] != pending or not replayed:
+            raise tlc.MachineryError('dump: %d states read, %d pending, %d replayed, %d on a threshold; TLC reports %d states' % (
+                seen, pending, replayed, near['states'], res.distinct))
+        if near['states'] == 0:
+            raise tlc.MachineryError('the TAB model has no pair exactly on a threshold')
+        ev.exhaustive = True
+        stats, sole_pairs, sens_count, history = {}, {}, {}, {}
+        skipped = ntr = 0
+        wall = 0.0
+        for a in trace_async:
+            part = a.get()
+            ev.states += part['states']
+            ev.transitions += part['transitions']
+            ev.traces += part['traces']
+            ev.evaluations += part['traces']
+            wall = max(wall, part['wall'])
+            ntr += part['n']
+            skipped += part['skipped']
+            _merge_stats(stats, part['stats'])
+            _add(sole_pairs, part['sole_pairs'])
+            _add(sens_count, part['sens_count'])
+            _add(history, part['history'])
+            ev.nontrivial |= part['nontrivial']
+            for sc, why in part['rejected']:
+                _viol(vd, ev, 'trace-rejected', sc, why + ' (family %s)' % sc['family'])
+            if part['sample']:
+                ev.sample(part['sample'])
+        ev.tlc_runs.append({'run': 'TRACE Trace_Bonds (small families)', 'events': ntr, 'shards': len(trace_async), 'wall_s': round(wall, 1)})
+        real_parts = [a.get() for a in real_async]
+        ev.tlc_runs.append({'run': 'TRACE Trace_Bonds (real structures: BondsRead + Bonds!FastOutC)', 'events': sum(len(p['runs']) for p in real_parts),
+                            'shards': len(real_parts), 'wall_s': round(max(p['wall'] for p in real_parts), 1)})
+    finally:
+        pool.terminate()
+        pool.join()
+    for st in stats.values():
+        st['companions'] = sorted(st['companions'])
+        st['scope'] = '/'.join(sorted(st['scope']))
+    if skipped > 0.02 * ntr:
+        raise tlc.MachineryError('%d of %d generated cases were on a threshold' % (skipped, ntr))
     for fam, st in sorted(stats.items()):
         if st['target'] and st['decisive'] < max(3, 0.5 * st['cases']):
             raise tlc.MachineryError('vacuous family %s: clause %s decisive in %d of %d cases' % (
@@ -870,17 +1177,37 @@ def run(tier, seed, ev, vd):
     never = sorted(v for v in variants if sens_count.get(v, 0) == 0)
     if never:
         raise tlc.MachineryError('variants never distinguished by any trace: %s' % never)
+    if history.get('second_runs', 0) < 5 or history.get('with_removed_atoms', 0) < 1 or history.get('input_bonds', 0) < 10:
+        raise tlc.MachineryError('history family is vacuous: %s' % history)
+    tot, runs, unsupported = _real_summary(real_parts, ev, vd)
     ev.extra['families'] = stats
     ev.extra['pairs_by_sole_failing_conjunct'] = sole_pairs
     ev.extra['cases_distinguishing_variant'] = {'trace': sens_count, 'tab': tab_sens}
     ev.extra['skipped_on_threshold'] = skipped
     ev.extra['radius_table_pm_from_spec'] = R
-    ok = next((c for c in batch if c['family'] == 'nonedge'), batch[0])
-    ev.sample({'kind': 'recorded run judged by TLC', 'family': ok['family'], 'sys': ok['sys'], 'got': ok['got']})
+    ev.extra['history_small'] = history
+    ev.extra['pairs_exactly_on_threshold'] = dict(near, note='TAB states with a pair exactly on the threshold: the statement puts '
+                                                  'them INSIDE (invariant OnThresholdInside); observation only: in `agree` of '
+                                                  '`states` the floating-point implementation made exactly the expected number of bonds')
+    ev.extra['real_structures'] = {'exercised': tot, 'minimum': REAL_NEED, 'runs': runs, 'not_expressible': unsupported}
 
 
 def replay(sc):
     _quiet()
+    if sc.get('kind') == 'real':
+        from . import c10_real
+        R, _ = spec_table()
+        events = c10_real.run_case(sc['case'], R)
+        verdicts, _, _, _ = c10_real.judge_events(events)
+        rc = 0
+        for e, (v, info) in zip(events, verdicts):
+            g = e['event']['got']
+            print('run %d of %s %s: real MakeBonds -> %d molecules, %d bonds%s' % (
+                e['step'], e['case']['src'], e['case']['ops'], len(g['mols']), len(g['edges']), ' EXCEPTION ' + e['exc'] if g['err'] else ''))
+            print('  TLC verdict: %s' % v)
+            if e['step'] == sc.get('step', e['step']) and v != 'ok':
+                rc = 1
+        return rc
     rng = random.Random(0)
     got = run_real(sc['sys'], rng)
     case = {'sys': sc['sys'], 'got': got, 'focus': sc.get('focus', {'a': 0, 'b': 0})}
@@ -894,6 +1221,8 @@ def replay(sc):
 
 def selftest(seed):
     """Binding demonstration: tampered recordings and a tampered input must be rejected with the right clause."""
+    from . import c10_real
+    import copy
     _quiet()
     R, _ = spec_table()
     gen = Gen(R)
@@ -902,6 +1231,7 @@ def selftest(seed):
     def make(fam):
         while True:
             c = getattr(gen, 'f_' + fam)(rng)
+            c.pop('history', None)
             if gen.near_free(c['sys']):
                 c['got'] = run_real(c['sys'], rng, ordered=c.pop('ordered'))
                 return c
@@ -915,7 +1245,7 @@ def selftest(seed):
     batch.append(c); expect.append('bond-violates-within')
     c = make('hh'); c['got']['edges'].append({'a': 1, 'b': 2, 'hasd': True, 'd2': 0, 'old': False})
     batch.append(c); expect.append('bond-violates-hh')        # 4
-    c = make('connected'); c['got']['mols'] = [sorted(x for m in c['got']['mols'] for x in m)]
+    c = make('connected'); c['got']['mols'] = [sorted((x for m in c['got']['mols'] for x in m), key=c['got']['inorder'].index)]
     batch.append(c); expect.append('molecule-not-connected')  # 5 molecules merged
     c = make('whole'); c['got']['mols'] = [[x] for m in c['got']['mols'] for x in m]
     c['got']['edges'] = []
@@ -932,11 +1262,86 @@ def selftest(seed):
     batch.append(c); expect.append('old-bond-lost')           # 10
     c = make('name_exact'); c['got']['edges'] = [e for e in c['got']['edges'] if _norm(e['a'], e['b']) != _norm(c['focus']['a'], c['focus']['b'])]
     batch.append(c); expect.append('name-bond-missing')       # 11
+    while True:                                               # 12 atoms of a molecule listed in another order (D30)
+        c = make('random')
+        big = [k for k, m in enumerate(c['got']['mols']) if len(m) >= 2]
+        if big and not c['got']['err']:
+            c['got']['mols'][big[0]] = c['got']['mols'][big[0]][::-1]
+            break
+    batch.append(c); expect.append('molecule-atoms-not-in-input-order')
+    while True:                                               # 13 tampered INPUT: the two input molecules declared one
+        c = make('molidx')
+        if c['focus']['a']:
+            break
+    for a in c['sys']['atoms']:
+        a['mol'] = 0
+    batch.append(c); expect.append(('residue-split', 'distance-bond-missing'))
     _, _, _, verdicts = _judge(batch)
     for i, exp in enumerate(expect, 1):
         v = verdicts[i][0]
         assert v.startswith(exp), (i, exp, v)
-    print('selftest C10: untouched recording accepted; 10 tampered recordings/inputs rejected by TLC with the clause:')
+    print('selftest C10: untouched recording accepted; tampered recordings/inputs rejected by TLC with the clause:')
     for i, exp in enumerate(expect, 1):
         print('  %2d %-10s -> %s' % (i, batch[i - 1]['family'], verdicts[i][0]))
+    # ---- real structures: one real run (two chains with inter-chain CONECT, ligand, waters), tampered copies
+    case = c10_real._case('3i40', ['ligand', 'altloc:3', 'unkres:1'], seed=seed)
+    base = c10_real.run_case(case, R)[0]
+
+    def variant(edit):
+        e = copy.deepcopy(base)
+        edit(e['event'])
+        return e
+
+    def t_order(e):
+        m = max(e['got']['mols'], key=len)
+        m[0], m[-1] = m[-1], m[0]
+
+    def t_conect_drop(e):
+        e['read']['edges'].pop()
+
+    def t_conect_wrong(e):
+        e['read']['edges'][0]['b'] = e['read']['edges'][0]['b'] + 1
+
+    def t_model(e):
+        r = next(r for r in e['file']['recs'] if r['k'] == 'atom' and r['altloc'] == '' and r['resname'] != 'HOH' and r['el'] != 'H')
+        r['altloc'] = 'B'
+
+    def t_name_bond(e):
+        k = next(k for k, x in enumerate(e['got']['edges']) if x['hasd'] and not x['old'])
+        e['got']['edges'].pop(k)
+
+    def t_warn(e):
+        e['got']['wunk'] += 1
+
+    def t_alt(e):
+        e['read']['nalt'] -= 1
+
+    def t_merge(e):
+        e['read']['mols'] = [sum(e['read']['mols'], [])]
+
+    def t_attr(e):
+        e['read']['mols'][0][3]['resid'] += 1
+
+    def t_split(e):
+        # the last atom of the longest molecule is moved into a molecule of its own
+        k = max(range(len(e['got']['mols'])), key=lambda q: len(e['got']['mols'][q]))
+        a = e['got']['mols'][k].pop()
+        e['got']['mols'].append([a])
+        e['got']['molof'][a - 1] = len(e['got']['mols'])
+
+    tamper = [('untouched', lambda e: None, 'ok'), ('atoms of a molecule reordered', t_order, 'molecule-atoms-not-in-input-order'),
+              ('CONECT bond dropped from the read system', t_conect_drop, 'read-conect-bond-missing'),
+              ('CONECT bond moved to the next atom', t_conect_wrong, 'read-conect-bond-wrong'),
+              ('input tampered: an atom given alternate location B', t_model, 'read-atom-that-should-be-skipped'),
+              ('a bond removed from the result', t_name_bond, ('name-bond-missing', 'distance-bond-missing')),
+              ('one more unknown-residue warning', t_warn, 'fall-back-warnings-wrong'),
+              ('one alternate-location warning less', t_alt, 'read-altloc-warnings-wrong'),
+              ('read molecules declared one', t_merge, 'read-molecules-wrong'),
+              ('residue number of a read atom changed', t_attr, 'read-atom-attributes-wrong'),
+              ('an atom split off its residue', t_split, 'residue-split')]
+    events = [variant(f) for _, f, _ in tamper]
+    verdicts, _, _, _ = c10_real.judge_events(events)
+    for (what, _, exp), (v, _) in zip(tamper, verdicts):
+        assert v.startswith(exp), (what, exp, v)
+        print('  real %-45s -> %s' % (what, v))
     return 0
